@@ -5,6 +5,7 @@
    The runtime half (the pickler is deterministic across interpreters and string-hash seeds, pickling the compiled
    function keeps the digests) is compared on the real code by the check. *)
 From Connectome Require Import Values Attrs VM Edges EdgesGen HashSound HashFacts GraphHashModel SpecEq Examples.
+From Connectome Require NodeHashGen.
 From Connectome Require ColStore ColumnsGen Columns ColumnsFacts EqFacts.
 Local Open Scope list_scope.
 
@@ -72,3 +73,12 @@ Theorem C07_column_request_ignores_ids_order :
   = Columns.column_request hpyeq heqb pyeq sorted get_hash get_value col size key keys' st.
 Proof. intros sorted get_hash get_value. exact (ColumnsFacts.column_request_ids_order hpyeq heqb pyeq sorted get_hash get_value). Qed.
 Print Assumptions C07_column_request_ignores_ids_order.
+
+(* The node-hash values this file reasons about are the ones engine/node_hash.py builds (regenerated, Gen/NodeHashGen.v):
+   tags 0-3 for leaf / apply / graph / custom, the components of each `value` tuple in order, and == on `value`. *)
+Theorem C07_node_hash_values_are_translated :
+  NodeHashGen.hash_tags = [0; 1; 2; 3] /\ NodeHashGen.LeafHash_value = ["tag"; "data"]
+  /\ NodeHashGen.ApplyHash_value = ["tag"; "func"; "args.value"; "kw_names"] /\ NodeHashGen.GraphHash_value = ["tag"; "output.value"]
+  /\ NodeHashGen.CustomHash_value = ["tag"; "marker"; "*children.value"] /\ NodeHashGen.nodehash_eq_compares = "value".
+Proof. repeat split; reflexivity. Qed.
+Print Assumptions C07_node_hash_values_are_translated.
